@@ -499,10 +499,11 @@ class DatasetProcessor:
 
         total_assignments, polya_found, self.all_read_groups, unaligned_reads, saved_read_group, saved_technical_replicas = \
             self.load_read_info(saves_file)
-        if self.args.read_assignments and getattr(self.args, "implicit_read_group", False):
+        if self.args.read_assignments:
             # no input files to decide the grouping from: as the run that saved the assignments decided
-            self.args.read_group = saved_read_group if saved_read_group else None
-            self.args.use_technical_replicas = saved_technical_replicas
+            if getattr(self.args, "implicit_read_group", False):
+                self.args.read_group = saved_read_group if saved_read_group else None
+            self.args.use_technical_replicas = saved_technical_replicas and self.args.read_group == "file_name"
         self.alignment_stat_counter.stats_dict[AlignmentType.unaligned] = unaligned_reads
 
         polya_fraction = polya_found / total_assignments if total_assignments > 0 else 0.0
